@@ -5,6 +5,7 @@ import DuckModel.Wire
 import DuckModel.Parser
 import DuckModel.Spec.Render
 import DuckModel.Scripted
+import DuckModel.Sdk.ProcessCmd
 import DuckModel.DynScripted
 import DuckModel.Registry
 import DuckModel.Sdk.Condition
@@ -123,11 +124,13 @@ def handle (toks : List String) : Option String :=
       let dom := (its.all fun x => Spec.instrOKb x.2.1 && Spec.choicesOKb x.1) && lastOk
       encStr text ++ " " ++ (if dom then "DOM" else "NODOM") ++ " " ++ encParse (parseText text)
     | none => bad
-  | ["run", text, names, queue, haltAt, vars, fuel] =>
+  | [op, text, names, queue, haltAt, vars, fuel] =>
+    -- `runx`: the scripted commands plus the real `exit` / `goto` of the SDK (Sdk/ProcessCmd.lean)
+    if op != "run" && op != "runx" then unknownOp else
     match decStr text, decList names, decQueue queue, decVars vars, fuel.toNat? with
     | some text, some names, some queue, some vars, some fuel =>
       let st : ScriptedSt := { queue := queue, haltAt := haltAt.toNat? }
-      match runScript (scriptedSem names) scriptedHalt fuel text vars st with
+      match runScript (if op == "runx" then scriptedSemX names else scriptedSem names) scriptedHalt fuel text vars st with
       | .error e => "PARSEERR " ++ encPErr e.kind ++ " " ++ encMeta e.mi
       | .ok (rs, e) =>
         let log := ";".intercalate (rs.st.log.map fun l => encStr l.name ++ "@" ++ toString l.line ++ encList l.args)
@@ -136,7 +139,7 @@ def handle (toks : List String) : Option String :=
         | .fail msg mi =>
           -- runner-generated texts are not compared (only that the run failed, and where);
           -- messages produced by commands ("crash#…") must arrive unchanged
-          let m := if "crash#".toList.isPrefixOf msg then encStr msg else "runner-msg"
+          let m := if "crash#".toList.isPrefixOf msg || "Exit with error code: ".toList.isPrefixOf msg then encStr msg else "runner-msg"
           "fail " ++ m ++ " " ++ encMeta mi ++ logs
         | .exitCalled => "ok | VARS " ++ encVars rs.vars ++ logs
         | .reachedEnd => "ok | VARS " ++ encVars rs.vars ++ logs
@@ -154,7 +157,7 @@ def handle (toks : List String) : Option String :=
       let log := ";".intercalate (s.log.map fun l => encStr l.name ++ "@" ++ toString l.line ++ encList l.args)
       let encOut : DynOutcome → String
         | .ok v => "ok VARS " ++ encVars v
-        | .fail msg mi => "fail " ++ (if "crash#".toList.isPrefixOf msg then encStr msg else "runner-msg") ++ " " ++ encMeta mi
+        | .fail msg mi => "fail " ++ (if "crash#".toList.isPrefixOf msg || "Exit with error code: ".toList.isPrefixOf msg then encStr msg else "runner-msg") ++ " " ++ encMeta mi
         | .parseErr e => "PARSEERR " ++ encPErr e.kind ++ " " ++ encMeta e.mi
         | .fuel => "fuel"
       let alive := outs.all fun o => match o with | .ok _ => true | _ => false
